@@ -100,6 +100,8 @@ class FluentWorklist(BaseWorklist):
         lengths = (len(source_wells), len(destination_wells), len(volumes))
         if len(set(lengths)) != 1:
             raise ValueError(f"Number of source/destination/volumes must be equal. They were {lengths}")
+        if np.any(volumes < 0):
+            raise ValueError(f"Volumes must be positive or zero. They were {volumes}")
         for labware, wells in ((source, source_wells), (destination, destination_wells)):
             unknown = [w for w in wells if not w in labware.indices]
             if unknown:
